@@ -28,8 +28,9 @@ Print Assumptions c04_v0_refuted.
 
 (* the same over call SEQUENCES on long-lived provider objects: for every sequence of calls
    (parse_authn_request_response, service_urls, Config.endpoint, create_authn_request) on any number
-   of provider objects with any configurations, every parse call satisfies the property with respect
-   to the configuration of the object it was called on *)
+   of provider objects with any configurations, every parse call (Response with one assertion: OParse,
+   with a list of plain / encrypted assertions: OResp) satisfies the property with respect to the
+   configuration of the object it was called on *)
 Theorem c04_sequences : forall ops, spec_trace ops (run_ops ops).
 Proof. exact trace_holds. Qed.
 Print Assumptions c04_sequences.
@@ -38,6 +39,17 @@ Print Assumptions c04_sequences.
 Theorem c04_trace_reflect : forall ops rs, spec_trace_b ops rs = true <-> spec_trace ops rs.
 Proof. exact spec_trace_b_iff. Qed.
 Print Assumptions c04_trace_reflect.
+
+(* the behaviour before 913771bd (finding C04-F2, fixed: the attributes of an assertion inside an <Advice> were
+   taken over without looking at its Conditions) violated the property; it held only for sequences without
+   <Advice> assertions *)
+Theorem c04_sequences_v0_refuted : exists ops, ~ spec_trace ops (run_ops_v0 ops).
+Proof. exact trace_v0_refuted. Qed.
+Print Assumptions c04_sequences_v0_refuted.
+
+Theorem c04_sequences_v0_guarded : forall ops, guard_ops ops = true -> spec_trace ops (run_ops_v0 ops).
+Proof. exact trace_v0_holds. Qed.
+Print Assumptions c04_sequences_v0_guarded.
 
 (* the verdict on a Response does not depend on the calls made before or after it *)
 Theorem c04_history_independent : forall pre post x,
@@ -105,6 +117,78 @@ Theorem c04_message_complete : forall x d,
   accept x = true.
 Proof. exact message_to_me_accepted. Qed.
 Print Assumptions c04_message_complete.
+
+(* ---- a Response that delivers SEVERAL assertions, each in the clear, encrypted, or inside the <Advice> of
+   another one, in any order (the count test of parse_assertion admits 1 plain + k encrypted and k plain + 1
+   encrypted): identity is drawn from an assertion only if THAT assertion satisfies the clauses - for EVERY
+   Response (since 913771bd get_identity refuses an <Advice> assertion whose Conditions are not satisfied) ---- *)
+Theorem c04_response : forall x, spec_r x (drawn_from x).
+Proof. exact drawn_from_holds. Qed.
+Print Assumptions c04_response.
+
+Theorem c04_response_reflect : forall x l, spec_r_b x l = true <-> spec_r x l.
+Proof. exact spec_r_b_iff. Qed.
+Print Assumptions c04_response_reflect.
+
+(* the behaviour before 913771bd (finding C04-F2, fixed) violated the property: get_identity merged the attributes
+   of an <Advice> assertion although its AudienceRestriction named someone else; it held under the guard no_advice,
+   an <Advice> assertion never influenced the verdict, and the fix changed nothing for Responses without them *)
+Theorem c04_response_v0_refuted : exists x, ~ spec_r x (drawn_from_v0 x).
+Proof. exact advice_v0_refuted. Qed.
+Print Assumptions c04_response_v0_refuted.
+
+Theorem c04_response_v0_guarded : forall x, no_advice x = true -> spec_r x (drawn_from_v0 x).
+Proof. exact drawn_from_v0_holds. Qed.
+Print Assumptions c04_response_v0_guarded.
+
+Theorem c04_response_v0_advice_unchecked : forall x l,
+  filter is_top l = filter is_top (r_assertions x) ->
+  accept_r_v0 {| r_me := r_me x; r_specs := r_specs x; r_binding := r_binding x; r_dest := r_dest x;
+                 r_conv := r_conv x; r_assertions := l |} = accept_r_v0 x.
+Proof. exact advice_v0_unchecked. Qed.
+Print Assumptions c04_response_v0_advice_unchecked.
+
+Theorem c04_response_fix_conservative : forall x, no_advice x = true -> drawn_from x = drawn_from_v0 x.
+Proof. exact same_without_advice. Qed.
+Print Assumptions c04_response_fix_conservative.
+
+(* the verdict in closed form: Destination test, count test, EVERY top-level assertion passes condition_ok and
+   get_subject - independent of the way it travels and of its position - and EVERY assertion inside an <Advice>
+   passes condition_ok *)
+Theorem c04_response_closed : forall x,
+  accept_r x = dest_ok (r_binding x) (r_dest x) (endpoint (r_specs x) (r_binding x))
+               && count_ok (r_assertions x)
+               && forallb (assertion_ok (r_me x) (r_conv x) (endpoint (r_specs x) (r_binding x)))
+                          (filter is_top (r_assertions x))
+               && forallb (advice_ok (r_me x)) (r_assertions x).
+Proof. exact accept_r_closed. Qed.
+Print Assumptions c04_response_closed.
+
+(* an accepted Response: each of its top-level assertions would have been accepted as the only one, and the
+   Conditions of each assertion inside an <Advice> are satisfied *)
+Theorem c04_response_every_assertion : forall x a,
+  accept_r x = true -> In a (r_assertions x) -> is_top a = true -> accept (msg_of x a) = true.
+Proof. exact accept_r_every. Qed.
+Print Assumptions c04_response_every_assertion.
+
+Theorem c04_response_every_advice : forall x a,
+  accept_r x = true -> In a (r_assertions x) -> is_top a = false -> condition_ok (a_conds a) (r_me x) = true.
+Proof. exact accept_r_advice. Qed.
+Print Assumptions c04_response_every_advice.
+
+(* identity is drawn from all delivered assertions or from none *)
+Theorem c04_response_all_or_none : forall x d, In d (drawn_from x) -> d = accept_r x.
+Proof. exact drawn_all_or_none. Qed.
+Print Assumptions c04_response_all_or_none.
+
+(* the message of c04_message (one assertion, in the clear) is a special case: same verdict, same property *)
+Theorem c04_response_extends : forall x, drawn_from (resp_of x) = cons (accept x) nil.
+Proof. exact drawn_from_resp_of. Qed.
+Print Assumptions c04_response_extends.
+
+Theorem c04_response_spec_extends : forall x o, spec_r (resp_of x) (cons o nil) <-> spec_m x o.
+Proof. exact spec_resp_of. Qed.
+Print Assumptions c04_response_spec_extends.
 
 (* tie to the source TEXT: response.for_me as translated from /repo's current source on this run
    (coq/gen/C04Src.v, harness/py2coq.py) computes the model's for_me on every Conditions element *)
